@@ -1,11 +1,12 @@
 """C15: how a program is driven does not change what it does."""
 from .xsbase import *
+import re
 
 MODES = [('eval', False), ('run', False), ('step', False), ('eval', True), ('run', True), ('step', True)]
 
 
-def mode_case(h, mode, rec, limits):
-    pre = 'xs limits %s' % limits + (' | rec on' if rec else '')
+def mode_case(h, mode, rec, limits, setup=()):
+    pre = 'xs limits %s' % limits + (' | rec on' if rec else '') + ''.join(' | eval %s' % hexsrc(x) for x in setup)
     if mode == 'eval':
         return '%s | eval %s | stack | dump | out' % (pre, h)
     if mode == 'run':
@@ -55,7 +56,19 @@ class C15(XsProp):
                     h = hexsrc(' '.join(str(i) for i in range(fill)) + ' ' + w)
                     for (m, rec) in MODES:
                         cs.append(mode_case(h, m, rec, '3000 %d 300' % L))
+        # recorded finding D33: a user-defined immediate word runs at build time; `compile` hides the caller's stack from it, `eval` does not
+        for (m, rec) in MODES:
+            cs.append(mode_case(hexsrc('foo'), m, rec, '3000 - -', setup=(': foo immediate drop ;', '7 8')))
         return cs
+
+    D33 = ('a user-defined immediate word that touches the data stack at build time: eval lets it see (and consume) the values already on '
+           'the stack, compile hides them (witness: `: foo immediate drop ;` `7 8`, then eval "foo" -> ok with 7 left; compile "foo" -> stack underflow)')
+
+    def known(self, text, impl, spec):
+        m = re.search(r'sources: (.*)', text)
+        if m and re.search(r':\s+\S+\s+immediate\b', m.group(1)):
+            return self.D33
+        return None
 
     @staticmethod
     def obs(out, rec):
@@ -79,8 +92,8 @@ class C15(XsProp):
                 continue
             for j in range(1, 6):
                 if obs[j] != obs[0]:
-                    fails.append(('case: %s\ncase: %s\nprogram: %s\n%s: %s\n%s: %s' % (
-                        grp[0], grp[j], src_of(grp[0])[0], MODES[0], obs[0], MODES[j], obs[j]),
+                    fails.append(('case: %s\ncase: %s\nprogram: %s\nsources: %s\n%s: %s\n%s: %s' % (
+                        grp[0], grp[j], src_of(grp[0])[-1], ' ;; '.join(src_of(grp[0])), MODES[0], obs[0], MODES[j], obs[j]),
                         'drive modes %s and %s disagree' % (MODES[0], MODES[j])))
                     break
         if n:
